@@ -155,7 +155,8 @@ OPS = [("emit", "a", 1), ("emit", "b", 1), ("emit", "b", 2), ("emit", "c", 5), (
        ("disconnect", "a", "j"), ("disconnect", "m", "j"), ("connect", "b", "j"), ("connect", "c", "j"),
        ("destroy", "j"), ("destroy", "m"), ("dropref", "br"), ("sinkdestroy",),
        ("destroyonly", "j", "b"), ("destroyonly", "j", "c"),       # j.destroy(streams=[b]): only that input goes
-       ("dropref", "br", "nogc")]           # the last reference goes and no cycle collection runs: plain reference counting must do
+       ("dropref", "br", "nogc"),           # the last reference goes and no cycle collection runs: plain reference counting must do
+       ("movesink", "c", "b")]              # the sink nobody references is moved to another stream (disconnect, connect), then a collection runs
 
 
 def applicable(ref, op, flags):
@@ -187,6 +188,8 @@ def applicable(ref, op, flags):
         return not flags["dropped"]
     if op[0] == "sinkdestroy":
         return not flags["sinkdead"]
+    if op[0] == "movesink":
+        return "snk2" in ref.edges.get(op[1], [])
     return True
 
 
@@ -262,6 +265,15 @@ def run(kind, hist):
                         pass
                     else:
                         gc.collect()
+                elif op[0] == "movesink":
+                    from streamz.sinks import Sink
+                    ref.disconnect(op[1], "snk2")
+                    ref.connect(op[2], "snk2")
+                    s2 = [d for d in real.nodes[op[1]].downstreams if isinstance(d, Sink)][0]
+                    real.nodes[op[1]].disconnect(s2)
+                    real.nodes[op[2]].connect(s2)
+                    del s2          # the program keeps no reference: the sink stays active until destroyed
+                    gc.collect()
                 elif op[0] == "sinkdestroy":
                     flags["sinkdead"] = True
                     ref.edges["a"].remove("snk")
@@ -297,9 +309,10 @@ def run(kind, hist):
             pass
         try:
             from streamz.sinks import Sink
-            for d in list(real.nodes["c"].downstreams):
-                if isinstance(d, Sink):
-                    d.destroy()
+            for n in ("c", "b"):
+                for d in list(real.nodes[n].downstreams):
+                    if isinstance(d, Sink):
+                        d.destroy()
         except Exception:
             pass
         if gc_was:
@@ -417,7 +430,7 @@ def check(ctx):
                             "join=%s history=%s :: %s" % (r["kind"], list(hist), str(info)[:300])))
     rep.coverage = dict(evaluations=tot["runs"], states=tot["states"], transitions=tot["transitions"],
                         traces_validated_against_impl=tot["runs"], distinct_nontrivial=tot["states"],
-                        rule="BFS over histories of %d operations (5 emits, 8 connect/disconnect, 2 destroy, 2 destroy(streams=[one input]), drop-last-reference+gc, sink.destroy) on a fixed node pool "
+                        rule="BFS over histories of %d operations (5 emits, 8 connect/disconnect, 2 destroy, 2 destroy(streams=[one input]), drop-last-reference+gc, sink.destroy, moving the unreferenced sink) on a fixed node pool "
                              "(incl. a sink nobody references) with 5 join kinds, depth %d, dedup on (current edge lists, join state, flags); distinct = distinct canonical states" % (len(OPS), depth),
                         samples=samples, depth=depth, per_join=per)
     rep.assumptions = ["pipelines without parallel edges (excluded by construction)",
